@@ -247,7 +247,7 @@ func init() {
 				"(1) every string over 16 symbols up to length 4 (thorough 5) in every []byte parameter of both packages (DecodePatch, Apply, Equal, MergePatch, MergeMergePatches, CreateMergePatch), the other parameter over {same, {}, [], {\"a\":1}, null}; " +
 				"(2) operation sequences of length <= 2 in which at least one operation is out-of-domain (empty tokens, non-canonical / overflowing / MinInt64 index tokens, bad ~ escapes, pointers without '/', '' as destination or remove target, root replaced by null or a scalar, test without value) " +
 				"on 8 documents under every combination of the ApplyOptions booleans with limits {0,1,10^6} (quick: one limit per combination), 3 indent strings; legacy package under its globals; " +
-				"(3) 10000/10001-deep nesting into every entry point of both packages; (4) EnsurePathExistsOnAdd with indices up to 10^4; (5) DecodePatch + accessors + Apply on awkward operation objects. states = distinct well-formed strings; non-trivial = library calls"
+				"(3) 10000/10001-deep nesting into every entry point of both packages; (4) EnsurePathExistsOnAdd with indices up to 10^4; (5) DecodePatch + accessors + Apply on awkward operation objects (every kind with every subset of its members missing or null); (6) ~10^4 string shapes (run-length patterns of ASCII / invalid UTF-8 / multi-byte / escapes around the decoder's buffer-growth boundaries) as root, element, member value and member name. states = distinct well-formed strings; non-trivial = library calls"
 			n := 4
 			if tier == "thorough" {
 				n = 5
@@ -257,6 +257,10 @@ func init() {
 			ctx.Phase("deep", func() { runDeep(ctx, "C04", tier, true, false) })
 			ctx.Phase("bytex_b_v5", func() { runBytexB(ctx, "C04", n, byteFlags{panics: true, applyOK: true}) })
 			ctx.Phase("bytex_b_legacy", func() { runBytexB(ctx, "C04", n, byteFlags{panics: true, applyOK: true, legacy: true}) })
+			ctx.Phase("string_shapes", func() {
+				runStringShapes(ctx, "C04", byteFlags{panics: true, applyOK: true})
+				runStringShapes(ctx, "C04", byteFlags{panics: true, applyOK: true, legacy: true})
+			})
 			ctx.Phase("seq_legacy", func() { runC04Seq(ctx, true, tier) })
 			ctx.Phase("seq_v5", func() { runC04Seq(ctx, false, tier) })
 			ctx.Rep.Validated = atomic.LoadInt64(&nExec)
